@@ -12,6 +12,55 @@ use crate::tok::{self, DOp};
 use crate::wire::{guarded, hex};
 use std::io::Write;
 
+/// Maps `dict` with the id sequences `l` / `r`; returns (image after | `err` | `panic`, observation, COSTS flag).
+pub fn map_obs(dict: vibrato::Dictionary, l: &Vec<u16>, r: &Vec<u16>) -> (String, &'static str, &'static str) {
+    let (lc, rc) = (l.clone(), r.clone());
+    let before = tok::conn_dump(&dict);
+    let res = guarded(move || {
+        let m = dict.map_connection_ids_from_iter(lc.into_iter(), rc.into_iter()).map_err(|_| ())?;
+        let mut b = vec![];
+        m.write(&mut b).map_err(|_| ())?;
+        Ok::<(Vec<u8>, Option<String>), ()>((b, tok::conn_dump(&m)))
+    });
+    // C06's cost clause on the implementation alone: cost'(new r, new l) = cost(r, l) for every pair of ids, where the
+    // new id of old id `x` is the (1-based) position of `x` in the sequence handed to the mapping, and 0 stays 0
+    let mut costs = "na";
+    let (btok, impl_obs) = match res {
+        None => ("panic".to_string(), "panic"),
+        Some(Err(())) => ("err".to_string(), "err"),
+        Some(Ok((b, after))) => {
+            let parse = |s: &Option<String>| -> Option<(usize, usize, Vec<i64>)> {
+                let t: Vec<i64> = s.as_ref()?.split(' ').filter_map(|x| x.parse().ok()).collect();
+                Some((*t.first()? as usize, *t.get(1)? as usize, t[2..].to_vec()))
+            };
+            costs = match (parse(&before), parse(&after)) {
+                (Some((nr, nl, a)), Some((nr2, nl2, c))) if nr == nr2 && nl == nl2 && a.len() == nr * nl && c.len() == nr * nl => {
+                    let newid = |v: &Vec<u16>, n: usize| -> Vec<usize> {
+                        let mut m = vec![0usize; n];
+                        for (i, old) in v.iter().enumerate() {
+                            if (*old as usize) < n {
+                                m[*old as usize] = i + 1;
+                            }
+                        }
+                        m
+                    };
+                    let (ml, mr) = (newid(&l, nl), newid(&r, nr));
+                    let mut ok = true;
+                    for x in 0..nr {
+                        for y in 0..nl {
+                            ok &= c[mr[x] * nl + ml[y]] == a[x * nl + y];
+                        }
+                    }
+                    if ok { "1" } else { "0" }
+                }
+                _ => "0",
+            };
+            (hex(&b), "ok same")
+        }
+    };
+    (btok, impl_obs, costs)
+}
+
 pub fn run(seed: u64, n: usize, out: &mut dyn Write) {
     let mut rng = Rng::new(seed ^ 0x6d6170696d67);
     let mut made = 0usize;
@@ -82,22 +131,11 @@ pub fn run(seed: u64, n: usize, out: &mut dyn Write) {
                 }
             }
         }
-        let (lc, rc) = (l.clone(), r.clone());
-        let res = guarded(move || {
-            let m = dict.map_connection_ids_from_iter(lc.into_iter(), rc.into_iter()).map_err(|_| ())?;
-            let mut b = vec![];
-            m.write(&mut b).map_err(|_| ())?;
-            Ok::<Vec<u8>, ()>(b)
-        });
-        let (btok, impl_obs) = match res {
-            None => ("panic".to_string(), "panic"),
-            Some(Err(())) => ("err".to_string(), "err"),
-            Some(Ok(b)) => (hex(&b), "ok same"),
-        };
+        let (btok, impl_obs, costs) = map_obs(dict, &l, &r);
         let ids = |v: &Vec<u16>| -> String { v.iter().map(|x| format!(" {x}")).collect() };
         writeln!(
             out,
-            "mapimg {seed}.{made} {} M {}{} {}{} {btok} IMPL {impl_obs} ## KIND={} PRE={}",
+            "mapimg {seed}.{made} {} M {}{} {}{} {btok} IMPL {impl_obs} ## KIND={} PRE={} COSTS={costs}",
             hex(&a),
             l.len(),
             ids(&l),
